@@ -34,6 +34,10 @@ CHECKS = {
    "deterministic simulation: multi-crash histories with torn/dropped/kept log tails, recovery vs. reference model",
    "Up to four sessions separated by pinned crashes (log tail dropped, kept or torn at a chosen byte), the last session swept at every primitive boundary with every cut of the last un-synced log write; after each image a writer is opened, a probe add + commit is made, and add index + contents must equal the crash-free result for exactly the operations whose records reached the image (known from which API call wrote which byte, not from parsing).",
    "Same trusted base as C01; one live writer handle at a time.", "3 C02"),
+ "C03": ("fault", "fault_enumeration",
+   "deterministic simulation: fault-plan enumeration over the primitives of the simulated file system",
+   "The target call's FS primitives are counted in a fault-free execution, then the whole history is re-executed once per (primitive, kind) with kind in {EIO before effect, EIO after effect, ENOSPC partial write + sticky}; quick adds sampled pairs, thorough every ordered pair with the second fault placed in the faulted execution (error paths included). Oracle: Err leaves new-reader and from-disk contents at the pre-state and the retry succeeds at the first attempt; Ok applies fully; the queue survives (checked with and without a restart); double faults / full-disk sequences: the on-disk index opens, names no missing file and shows pre- or post-state.",
+   "Faults are clean (error returned, effect absent or complete, ENOSPC applies a prefix); faults stop when the target call returns.", "3 C03"),
  "C04": ("model", "exploration",
    "deterministic simulation (fault-free configuration) against an executable reference model",
    "Seeded fault-free histories (1-3 writer handles, kept readers, reopen, compaction) on FsStorage+SimFs and InMemoryStorage are executed on the real core and on the reference model; after every call a fresh reader must show exactly the model's committed state with the independently computed stored projection, add_document must return the model's value, kept readers must keep their snapshot.",
@@ -64,7 +68,7 @@ def main():
         })
     na = [{"property_id": k, "reason": v} for k, v in sorted(NA.items())]
     pending = {
-      "C03": "E1 fault", "C05": "E2 sched", "C06": "E2 sched", "C17": "E1 corrupt",
+"C05": "E2 sched", "C06": "E2 sched", "C17": "E1 corrupt",
       "C23": "E3 http", "C24": "E3 http", "C27": "E4 idb",
     }
     for k, v in sorted(pending.items()):
